@@ -1225,7 +1225,7 @@ def registry_writers(ctx):
     that item's output depend on whoever happened to be resolved before it (C19 / C09)."""
     P = ctx.prog
     W = re.compile(r'TypeRegistry::(get_mut|add)$')
-    WM = re.compile(r'HashMap::<K, V, S(, A)?>::(get_mut|insert|entry|values_mut|iter_mut|remove|retain|clear|drain|extend)$')
+    WM = re.compile(r'(HashMap|BTreeMap)::<[^<>]*>::(get_mut|insert|entry|values_mut|iter_mut|remove|retain|clear|drain|extend)$')
     bad, n = [], 0
     for f in P.fns.values():
         if f.raw.get('derived'):
@@ -1237,7 +1237,7 @@ def registry_writers(ctx):
             hit = None
             if W.search(p):
                 hit = short(p)
-            elif WM.search(p) and re.search(r'HashMap::<grammar::ItemPath, semantic::(module::Module|types::ItemDefinition)>', full):
+            elif WM.search(p) and re.search(r'(HashMap|BTreeMap)::<grammar::ItemPath, semantic::(module::Module|types::ItemDefinition)(, [^<>]*)?>', full):
                 hit = 'map of ' + ('modules' if 'module::Module' in full else 'items') + '.' + p.split('::')[-1]
             if hit is None:
                 continue
